@@ -171,10 +171,10 @@ def relative_sigma(steps: int, off: int, i: int, j: int, k: int, n: int) -> bool
 STEPS = ["", "0", "1", "2", "3", "10", "01", "-1"]
 OFFS = ["", "+1", "-1", "+2", "-2", "+10", "-12", "+0", "+", "-", "+01"]
 OPNAMES = ["add", "remove", "replace", "move", "copy", "test", "addne", "addap", "nope", 1, None]
-PTRS = ["", "/a", "/a/0", "/a/-", "/a/1", "/b/c", "/zz", "/a/x", "a", "/a/#", "/#a", "/a/00", "/a/9", "/b/c/d", "/b", 1, None][P.get("ptrlo", 0):]
+PTRS = ["", "/a", "/a/0", "/a/-", "/a/1", "/b/c", "/zz", "/a/x", "a", "/a/#", "/#a", "/a/#0", "/a/#1", "/a/00", "/a/9", "/b/c/d", "/b", 1, None][P.get("ptrlo", 0):]
 
 
-FROMS = ["/a/0", "/b", "/a", "", "/zz", "/a/-", "/#a", 1, None]
+FROMS = ["/a/0", "/b", "/a", "", "/zz", "/a/-", "/#a", "/a/#0", 1, None]
 OPLO, OPHI = P.get("oplo", 0), P.get("ophi", 10)
 
 
